@@ -19,8 +19,14 @@ def program_for(rng, tag):
         extra.append(rng.choice(["(define shared-name '%s)" % tag, "(set! shared-name (list shared-name))",
                                  "(define (shared-proc) '%s)" % tag, "(define v (vector '%s))" % tag,
                                  "(vector-set! v 0 'changed-by-%s)" % tag, "(car '())", "(undefined-%s)" % tag,
-                                 "(define car (lambda (x) '%s-car))" % tag, "(lib-value)", "(lib-bump!)", "(lib-bump!)"]))
-    probes = ["shared-name", "(shared-proc)", "v", "(car '(1 2))", "(lib-value)"]
+                                 "(define car (lambda (x) '%s-car))" % tag, "(lib-value)", "(lib-bump!)", "(lib-bump!)",
+                                 # variables named like the keywords of the derived forms
+                                 "(define when '%s-when)" % tag, "(define (unless x) (list '%s x))" % tag,
+                                 "(define cond 5)", "(define (let* . r) r)", "(define and 'my-and)",
+                                 "(when #t 1 2)", "(unless #f 1 2)", "(cond (#f 1) (else 2 3))", "(let* ((p 1) (q p)) q p)",
+                                 "(and 1 2 3)", "(case 2 ((1) 'a) ((2) 'b) (else 'c))"]))
+    probes = ["shared-name", "(shared-proc)", "v", "(car '(1 2))", "(lib-value)", "(when #t 1 2)", "(cond (#f 1) (else 2 3))",
+              "(unless #f 1 2)"]
     out = []
     # imports belong to the beginning of a program
     if rng.random() < 0.8:
